@@ -462,6 +462,10 @@ def gen_lock(rng: random.Random, tier: str) -> dict:
                 st["amt"] = min(cap, rng.choice([1, 1, 1, 2, 3]))
             if kind == "RWLock":
                 st["mode"] = rng.choice(["r", "r", "w"])
+            if st["op"] == "acq" and rng.random() < 0.2:
+                # API misuse that the primitive documents as an error: releasing more permits than fit the pool
+                # (Semaphore) / releasing without holding (Mutex, RWLock) - attempted only when HEAD must refuse it
+                st["misuse"] = rng.choice([1, 1, 2]) if kind == "Semaphore" else True
             steps.append(st)
         workers.append({"at": rng.randint(0, spread), "steps": steps})
     if kind == "Mutex":
@@ -554,6 +558,27 @@ def run_lock(case: dict) -> Result:
                     yield st["gap"] * TS
                 first = False
                 mode = st.get("mode", "x")
+                if st.get("misuse") and comp != "Semaphore":
+                    # release without holding anything, attempted only when nobody holds in that mode (HEAD raises)
+                    nothing = (not prim.is_locked) if comp == "Mutex" else (
+                        prim.active_readers == 0 if mode == "r" else not prim.is_write_locked)
+                    if nothing:
+                        res.count("over_releases_attempted")
+                        before = (prim.waiters,) + ((prim.is_locked,) if comp == "Mutex" else (prim.active_readers, prim.is_write_locked))
+                        try:
+                            if comp == "Mutex":
+                                prim.release()
+                            elif mode == "r":
+                                prim.release_read()
+                            else:
+                                prim.release_write()
+                        except RuntimeError:
+                            pass
+                        else:
+                            flag("over-release-accepted", variant + "/release-without-hold", f"release ({mode}) by a non-holder was accepted")
+                        after = (prim.waiters,) + ((prim.is_locked,) if comp == "Mutex" else (prim.active_readers, prim.is_write_locked))
+                        if after != before:
+                            flag("over-release-changed-state", variant + "/release-without-hold", f"state went {before} -> {after}")
                 r = led.request(wi, mode=mode, amount=st.get("amt", 1), hold=st["hold"], how=st["op"])
                 if st["op"] == "try":
                     ok, free = do_try(r, wi)
@@ -576,6 +601,26 @@ def run_lock(case: dict) -> Result:
                 yield st["hold"] * TS
                 if run.now_ns() - t0 != st["hold"] * 1_953_125:
                     flag("duplicate-wake", variant, f"a hold of {st['hold']} ticks lasted {run.now_ns() - t0} ns")
+                if st.get("misuse") and comp == "Semaphore":
+                    n = r.amount + st["misuse"]
+                    if prim.available + n > cap:
+                        # must be refused: the pool would exceed its capacity (waiters may be queued right now)
+                        before = (prim.available, prim.waiters)
+                        res.count("over_releases_attempted")
+                        if prim.waiters:
+                            res.count("over_releases_with_waiters_queued")
+                        try:
+                            prim.release(n)
+                        except ValueError:
+                            if (prim.available, prim.waiters) != before:
+                                flag("over-release-changed-state", variant + "/release-more-than-held",
+                                     f"release({n}) was refused but (available, waiters) went {before} -> {(prim.available, prim.waiters)}")
+                        else:
+                            flag("over-release-accepted", variant + "/release-more-than-held",
+                                 f"holder of {r.amount} called release({n}) with available={before[0]} capacity={cap} "
+                                 f"waiters={before[1]}: accepted")
+                            led.released(r)
+                            continue
                 try:
                     evs = do_release(r)
                 except (RuntimeError, ValueError) as exc:
@@ -1338,6 +1383,15 @@ def run_bulkhead(case: dict) -> Result:
                 r.blocked = False
         last["rej"], last["queued"] = st.rejected_requests, st.queued_requests
         timed_out_total[0] = st.timed_out_requests
+        if mwt and st.timed_out_requests:
+            # a queued request may be given up only after it waited max_wait_time (and was not admitted meanwhile)
+            now = run.now_ns()
+            due = sum(1 for q in led.reqs if q.blocked and q.s_grant is None and q.t_req + mwt * 1_953_125 <= now)
+            res.count("queue_timeouts_checked")
+            if st.timed_out_requests > due:
+                flag("timed-out-before-max-wait-time", "queued-request",
+                     f"timed_out_requests={st.timed_out_requests} but only {due} unserved queued request(s) have waited "
+                     f"max_wait_time ({mwt} ticks) by now")
         inserv = len(led.holders())
         if inserv > mc:
             flag("over-admission", "in-service-above-limit", f"{inserv} requests inside the target, max_concurrent={mc}")
